@@ -306,9 +306,20 @@ func (c *Ctx) bigConst(v *big.Int) *Term {
 	return BVConst(v, c.BigW)
 }
 
+func isBigFloat(t types.Type) bool {
+	if n, ok := t.(*types.Named); ok {
+		o := n.Obj()
+		return o.Pkg() != nil && o.Pkg().Path() == "math/big" && o.Name() == "Float"
+	}
+	return false
+}
+
 func (c *Ctx) zero(t types.Type) Value {
 	if c.isBigStruct(t) {
 		return &BigVal{T: c.bigConst(big.NewInt(0))}
+	}
+	if isBigFloat(t) {
+		return &BigFloatVal{FP: FPConst(0)}
 	}
 	switch u := t.Underlying().(type) {
 	case *types.Basic:
